@@ -424,11 +424,90 @@ Feeds(e) ==
     /\ UNCHANGED <<docs, obs, dumps, clock, start, evlog, verlog, auxs>>
     /\ nfail' = nfail + total
 
+
+---------------------------------------------------------------------------
+(* Crash traces (C10): the bucket as re-opened by another process after the writer was killed.  The        *)
+(* specification's documents are those left by the acknowledged calls; the call in flight at the kill is   *)
+(* either entirely applied (one of RosmarStore's outcomes for it) or not at all.                           *)
+Reopen(e) ==
+    LET inf == e.inflight
+        c == inf.coll
+        k == inf.a.key
+        pre == IF inf.op = "-" THEN AbsentDoc ELSE docs[c][k]
+        obsOf(c2, k2) == e.post[CHOOSE i \in 1..Len(e.post) : e.post[i].c = c2 /\ e.post[i].key = k2].d
+        seen(c2, k2) == DocOf(obsOf(c2, k2), docs[c2][k2].json)
+        same(c2, k2) == NoJson(seen(c2, k2)) = NoJson(docs[c2][k2])
+        a0 == ArgsOf(inf.a)
+        a == [a0 EXCEPT !.cas = CASE a0.casc = "zero" -> 0
+                                  [] a0.casc = "cur" -> IF IsAbsent(pre) THEN 9999 ELSE pre.cas
+                                  [] OTHER -> 9998,
+                        !.newcas = seen(c, k).cas]
+        n == seen(c, k).cas
+        outs == IF inf.op = "-" THEN {} ELSE Outcomes(inf.op, a, pre, n)
+        applied == /\ inf.op # "-"
+                   /\ \A c2 \in Colls, k2 \in Keys : (c2 = c /\ k2 = k) \/ same(c2, k2)
+                   /\ \E o \in outs : o.any \/ (o.ok /\ NoJson(o.doc) = NoJson(seen(c, k)))
+        purgeApplied == inf.op = "PurgeTombstones"
+                        /\ \A c2 \in Colls, k2 \in Keys : NoJson(seen(c2, k2)) = NoJson(Purged(docs)[c2][k2])
+        untouched == \A c2 \in Colls, k2 \in Keys : same(c2, k2)
+        opened == e.openerr = ""
+        Fr(ok, what, exp, got) == IF ok THEN 0 ELSE IF PrintT(<<"FAIL", {"C10"}, e.tr, e.i, e.mode, inf.op, what, exp, got>>) THEN 1 ELSE 1
+        maxCas(c2) == LET s == {seen(c2, k2).cas : k2 \in Keys} IN CHOOSE m \in s : \A x \in s : x <= m
+        fOpen == Fr(opened, <<"reopen-failed", e.site>>, "opens", e.openerr)
+        fAtomic == IF ~opened THEN 0 ELSE
+                   Fr(untouched \/ applied \/ purgeApplied, <<"not-all-or-nothing", e.site, Class(pre)>>,
+                      <<"acknowledged state, or one of", {Brief(o.doc) : o \in outs}>>,
+                      {<<p[1], p[2], Brief(seen(p[1], p[2])), Brief(docs[p[1]][p[2]])>> : p \in {q \in Colls \X Keys : ~same(q[1], q[2])}})
+        fReaders == IF ~opened THEN 0 ELSE
+                    Cardinality({p \in Colls \X Keys : ~ReadsCoherent(obsOf(p[1], p[2]))
+                        /\ PrintT(<<"FAIL", {"C10", "C01"}, e.tr, e.i, e.mode, inf.op, <<"readers-disagree-after-reopen", e.site>>, "coherent", obsOf(p[1], p[2])>>)})
+        fIdent == IF ~opened THEN 0 ELSE
+                  Fr(e.uuidsame /\ e.stores = <<"_default._default", "s.c1", "s.c2">> /\ e.ddocs = <<"c0/vd", "c1/vd", "c2/vd">>,
+                     <<"identity-lost", e.site>>, "same UUID, collections, design docs", <<e.uuidsame, e.stores, e.ddocs>>)
+        fMarks == IF ~opened THEN 0 ELSE
+                  Fr(\A c2 \in Colls : e.marks[c2] >= maxCas(c2) /\ e.marks["bucket"] >= maxCas(c2),
+                     <<"high-water-mark-behind-document", e.site>>, [c2 \in Colls |-> maxCas(c2)], e.marks)
+        fTimer == IF ~opened THEN 0 ELSE Fr(e.anyexp => e.timerarmed, <<"pending-expiration-not-rearmed", e.site>>, TRUE, e.timerarmed)
+    IN
+    /\ nfail' = nfail + fOpen + fAtomic + fReaders + fIdent + fMarks + fTimer
+    /\ UNCHANGED <<docs, obs, dumps, clock, start, evlog, verlog, auxs>>
+
+
+---------------------------------------------------------------------------
+(* Randomised stress (real parallelism, no gates): writers on a few keys while a checkpointed resume-mode   *)
+(* dump feed runs again and again and a live feed runs all along.  CAS values only.                         *)
+Stress(e) ==
+    LET Fs(ok, props, what, exp, got) == IF ok THEN 0 ELSE IF PrintT(<<"FAIL", props, e.tr, 0, e.mode, "stress", what, exp, got>>) THEN 1 ELSE 1
+        incr(s) == \A i, j \in 1..Len(s) : i < j => s[i] < s[j]
+        runs == e.runs
+        delivered(n) == UNION {{runs[r].cas[i] : i \in 1..Len(runs[r].cas)} : r \in 1..n}
+        maxOf(S) == IF S = {} THEN 0 ELSE CHOOSE m \in S : \A x \in S : x <= m
+        finals == {e.final[k] : k \in DOMAIN e.final} \ {0}
+        liveSet == {e.live[i] : i \in 1..Len(e.live)}
+        commitSet == {e.commit[i] : i \in 1..Len(e.commit)}
+        \* C08: every feed run and the live feed see increasing CAS
+        fOrder == Cardinality({r \in 1..Len(runs) : ~incr(runs[r].cas)
+                     /\ PrintT(<<"FAIL", {"C08", "C09", "C15"}, e.tr, r, e.mode, "stress", <<"run-cas-order">>, "increasing", runs[r].cas>>)})
+                  + Fs(incr(e.live), {"C08"}, <<"live-cas-order">>, "increasing", e.live)
+        \* C08: the live feed received every committed mutation's CAS that is some key's final version, exactly once
+        fLive == Fs(Cardinality(liveSet) = Len(e.live), {"C08"}, <<"live-duplicate">>, "distinct", e.live)
+                 + Fs(finals \subseteq liveSet, {"C08"}, <<"live-missed-final-version">>, finals \ liveSet, Len(e.live))
+        \* C15: the runs together deliver every key's final version; the checkpoint never exceeds what was delivered
+        fSkip == Fs(finals \subseteq delivered(Len(runs)), {"C15"}, <<"final-version-skipped-across-runs">>,
+                    finals \ delivered(Len(runs)), <<Len(runs), [r \in 1..Len(runs) |-> runs[r].ckpt]>>)
+        fCkpt == Cardinality({r \in 1..Len(runs) : runs[r].ckpt > maxOf(delivered(r))
+                     /\ PrintT(<<"FAIL", {"C15"}, e.tr, r, e.mode, "stress", <<"checkpoint-above-delivered">>, maxOf(delivered(r)), runs[r].ckpt>>)})
+        \* C04: CAS values are distinct and increase in commit order
+        fCas == Fs(incr(e.commit), {"C04", "C08"}, <<"commit-order-not-cas-order">>, "increasing", Len(e.commit))
+    IN
+    /\ nfail' = nfail + fOrder + fLive + fSkip + fCkpt + fCas
+    /\ UNCHANGED <<docs, obs, dumps, clock, start, evlog, verlog, auxs>>
+
 Next ==
     /\ l <= Len(TraceLog)
     /\ l' = l + 1
     /\ LET e == TraceLog[l] IN
-       IF e.k = "reset" THEN Reset(e) ELSE IF e.k = "feeds" THEN Feeds(e) ELSE Call(e)
+       IF e.k = "reset" THEN Reset(e) ELSE IF e.k = "feeds" THEN Feeds(e) ELSE IF e.k = "reopen" THEN Reopen(e) ELSE IF e.k = "stress" THEN Stress(e) ELSE Call(e)
 
 Spec == Init /\ [][Next]_vars
 
